@@ -5,6 +5,27 @@ props=[json.loads(l)["id"] for l in open('/verif/properties.jsonl')]
 hook_commits=subprocess.run(["git","-C","/repo","log","--format=%h","--grep=^verif:"],capture_output=True,text=True).stdout.split()
 # id -> (level, technique, design_ref, text, note)
 C={
+"C01":("fault_enumeration","explicit-state BFS over API programs on the real code + exhaustive enumeration of crash images (sync epochs x unsynced-write subsets x sector/byte tearing) recovered by the real Open","DESIGN.md 4/C01",
+  "For every explored program's last commit, every crash image the persistence model allows (per sync epoch: subsets of unsynced operations, sector tearing, torn meta) is recovered by the real code under two freelist configurations and must be the last acknowledged or (iff its meta is complete) the in-flight state, consistent and writable.",
+  "Persistence model: fdatasync/fsync is a barrier, 512-byte sectors persist independently afterwards; not a model of a specific file system; NoSync and init-crash excluded as documented."),
+"C05":("model_checking","exhaustive enumeration of cursor call sequences over all deletion subsets of fixed bucket shapes on the real code, sorted-list oracle","DESIGN.md 4/C05",
+  "Every sequence of 3 (quick) / 4 (thorough) cursor calls from First/Last/Next/Prev/Seek(every key and gap) on every bucket shape x every subset of keys deleted (and every single gap put) in the same write tx, and in read transactions, equals a sorted list with a position; every call returns (a hang kills the worker and is reported).",
+  "Shapes are fixed (6 shapes x 2 page sizes); cursor use after mutation without repositioning is excluded as documented."),
+"C08":("fault_enumeration","explicit-state BFS over API programs with one injected failure at every I/O call index of every commit, run under the controlled scheduler for deadlock detection","DESIGN.md 4/C08",
+  "For every explored state with an open write tx the commit is re-executed once per I/O call and failure shape; afterwards error returned, pre-state (or, after a complete meta write, the post-state in memory and on disk alike) visible to fresh and held readers, accounting exact, no page of a visible version allocatable, follow-up transactions and reopen work, no deadlock. Known finding F6 reported as such.",
+  "One failure per execution; failures are injected through the tag-guarded I/O hook (write, fdatasync, fsync, truncate, mmap)."),
+"C11":("model_checking","exhaustive enumeration of single-byte and partial-overwrite damages of the meta pages of files at rest, opened by the real code, own FNV-1a as oracle","DESIGN.md 4/C11",
+  "Every byte position x every other value in either meta, every contiguous partial overlay of a would-be next meta, both metas damaged, every short length, non-databases; page sizes 1024/4096/16384 with the page-size option unset/equal/different, read-write and read-only.",
+  "Files at rest after a successful commit; truncation inside the data area is outside the statement."),
+"C15":("model_checking","explicit-state BFS over source states x exhaustive enumeration of transaction-size limits, real Compact and CLI, reference-model oracle","DESIGN.md 4/C15",
+  "Every source state of the exploration and every seed, compacted for every limit (exhaustive when small, else every limit that changes the split pattern) through the library and the CLI: destination equals the model incl. sequences, passes Tx.Check/accounting, source unchanged.",
+  "CLI run in-process via command.NewRootCommand()."),
+"C19":("fault_enumeration","exhaustive enumeration of single structural corruptions (decoder-guided byte surgery) of consistent files; Tx.Check under both backends and the CLI must report","DESIGN.md 4/C19",
+  "Every single corruption of each listed class at every eligible place of each seed state (freelist persisted by either backend or not) must be reported by Tx.Check (both backends) and by `bbolt check` (non-zero exit, in-process and binary); unmutated files must be clean.",
+  "A mutation counts only if the independent decoder sees the intended class; cycles excluded; not-openable files count for the CLI only."),
+"C20":("model_checking","explicit-state BFS over API programs; after every commit the real surgery commands are run on a copy and judged by reference model + independent decoder","DESIGN.md 4/C20",
+  "After every commit of every explored program: freelist abandon, abandon+rebuild and revert-meta-page produce exactly the promised file (content, free set = unreachable set, previous version), pass Tx.Check/accounting, accept a commit; sources stay byte-identical, only the output file is created.",
+  "Commands run in-process through the real cobra command tree."),
 "C02":("model_checking","stateless DFS over thread schedules (preemption-bounded) of the real code under a controlled scheduler + explicit-state BFS over reader/writer event orders","DESIGN.md 4/C02",
   "Every schedule (bounded preemptions) of reader threads against a page-recycling / map-outgrowing writer, and every order of reader/writer/rollback/reopen events within the bound: each reader dump equals the version its id names and never changes; exhaustive within the bounds.",
   "Cooperative scheduler preempts at lock, channel, once and I/O operations of the instrumented build (generated from the current tree); reader-internal preemption argued unnecessary in DESIGN.md."),
